@@ -137,18 +137,34 @@ type val struct {
 	Bad bool // neither: something no callback of this harness returned
 }
 
+// sized: a value that implements cache.Value.  The hundreds digits of the number say what a value is:
+// c = (v mod 10000) / 100 is 0 for a plain int64 (the LRU facade counts it 1) and s+1 for a sized value of Size() = s.
+type sized struct{ v int64 }
+
+func sizeCode(v int64) int64 { return (v % 10000) / 100 }
+func (s sized) Size() int    { return int(sizeCode(s.v)) - 1 }
+
 func toVal(x interface{}) val {
-	if x == nil {
+	switch v := x.(type) {
+	case nil:
 		return val{Nil: true}
-	}
-	if v, ok := x.(int64); ok {
-		return val{V: v}
+	case int64:
+		if sizeCode(v) == 0 {
+			return val{V: v}
+		}
+	case sized:
+		if sizeCode(v.v) != 0 {
+			return val{V: v.v}
+		}
 	}
 	return val{V: -888888, Bad: true}
 }
 func (v val) iface() interface{} {
 	if v.Nil {
 		return nil
+	}
+	if sizeCode(v.V) != 0 {
+		return sized{v.V}
 	}
 	return v.V
 }
@@ -493,7 +509,7 @@ func (h *hist) storeValue(k int64) val {
 
 func (h *hist) write(k, d int64) int64 {
 	h.ver[k]++
-	v := 100*h.ver[k] + d
+	v := 10000*h.ver[k] + d
 	h.m[k] = v
 	return v
 }
